@@ -275,7 +275,7 @@ class Ref:
                     rec["name"] = None if k == "mkf" else node["fmt"]
             self.exp[idx] = rec
             return ctx
-        if k in ("data", "src"):
+        if k in ("data", "src", "mut"):
             self.exp[idx] = {"k": k}
             return ctx
         if k == "seq":
@@ -356,6 +356,8 @@ def ref_run(node, exp, idx, flow):
         return [(d, ref_mkf_call(node, exp[idx]["seen"], c)) for d, c in flow], idx + 1
     if k in ("set", "store", "write", "cache", "data"):
         return flow, idx + 1
+    if k == "mut":
+        return [(d, ref_update(c, ref_path_dict(node["key"], node["val"]))) for d, c in flow], idx + 1
     if k == "src":
         return [(i, copy.deepcopy(c)) for i, c in enumerate(SRC_FLOW)], idx + 1
     if k == "seq":
@@ -388,6 +390,20 @@ class _Src(object):
 
 def _ident(val):
     return val
+
+
+class _Mutator(object):
+    """an ordinary run-time element that updates the run-time context of every value IN PLACE (as
+    lena.context.update_recursively(context, "key", value) in a user's callable does)"""
+
+    def __init__(self, key, val):
+        self._key, self._val = key, val
+
+    def __call__(self, value):
+        import lena.context
+        data, context = value
+        lena.context.update_recursively(context, lena.context.str_to_dict(self._key, self._val))
+        return (data, context)
 
 
 _KEYERR = re.compile(r"nested (?:dict|key) (\S+) not found")
@@ -430,6 +446,8 @@ def build(node, objs):
         o = lena.flow.Cache(node["fmt"], recompute=True)
     elif k == "data":
         o = _ident
+    elif k == "mut":
+        o = _Mutator(node["key"], node["val"])
     elif k == "src":
         o = _Src()
     elif k == "seq":
@@ -457,10 +475,8 @@ def build(node, objs):
     return o
 
 
-def observe(tree):
-    """build the tree with the real classes and read what every element holds after construction"""
-    objs = []
-    top = build(tree, objs)
+def read_state(tree, objs):
+    """what every element of the constructed tree holds now"""
     nodes = preorder(tree)
     recs = []
     for node, o in zip(nodes, objs):
@@ -483,22 +499,30 @@ def observe(tree):
             recs.append({"k": k, "get": _get(o)})
         else:
             recs.append({"k": k})
-    return top, recs
+    return recs
 
 
 def _run_tree(tree, flow_ctxs):
-    top, recs = observe(tree)
-    out = None
+    """construct the tree with the real classes, read the state of every element, run the flow (every value is
+    copied the moment it comes out), read the state of every element again"""
+    objs = []
+    top = build(tree, objs)
+    recs = read_state(tree, objs)
+    out, after = None, None
     if flow_ctxs is not None:
         try:
             if tree["kind"] == "Source":
-                res = list(top())
+                gen = top()
             else:
-                res = list(top.run([(i, copy.deepcopy(c)) for i, c in enumerate(flow_ctxs)]))
+                gen = top.run([(i, copy.deepcopy(c)) for i, c in enumerate(flow_ctxs)])
+            res = []
+            for val in gen:
+                res.append(copy.deepcopy(val))
             out = {"r": [[d, c] for d, c in res]}
         except Exception as e:
             out = {"e": exc_name(e), "msg": str(e)[:200]}
-    return recs, out
+        after = read_state(tree, objs)
+    return recs, out, after
 
 
 def run_impl(case):
@@ -507,8 +531,8 @@ def run_impl(case):
     tmp = tempfile.mkdtemp(prefix="c13_", dir="/dev/shm" if os.path.isdir("/dev/shm") else None)
     os.chdir(tmp)
     try:
-        recs, out = _run_tree(case["tree"], case.get("flow"))
-        res = {"nodes": recs, "out": out}
+        recs, out, after = _run_tree(case["tree"], case.get("flow"))
+        res = {"nodes": recs, "out": out, "nodes_after": after}
         if case.get("variants"):
             res["variants"] = [_run_tree(v, None)[0] for v in case["variants"]]
         return res
@@ -580,6 +604,12 @@ def oracle(case, res):
             return f"running the flow raised {got}"
         if [[d, c] for d, c in exp_out] != [list(x) for x in got["r"]]:
             return f"run-time result {got['r']} differs from {[[d, c] for d, c in exp_out]} (static context leaked or was lost)"
+    # (2b) run-time values never leak back: after the run every element holds what it held before
+    if res.get("nodes_after") is not None:
+        for idx, (node, before, aft) in enumerate(zip(nodes, recs, res["nodes_after"])):
+            if before != aft:
+                return (f"node #{idx} {node}: static state changed by running the flow {case.get('flow')}: "
+                        f"before {before}, after {aft}")
     # (3) causality: equal cones => equal observations, across the tree and its variants
     if case.get("variants"):
         table = {}
@@ -622,6 +652,8 @@ def alphabet(case):
                 tpl = parse_template(node["fmt"])
             else:
                 tpl = None
+                if node["k"] == "mut":
+                    acc.update(node["key"].split("."))
             for f in (tpl or [])[1::2]:
                 acc.update(p for p in f.split(".") if p)
     for c in (case.get("flow") or []) + SRC_FLOW:
@@ -646,6 +678,8 @@ def _enc_leaf(node, ix):
     if k in ("mkf", "write", "cache"):
         tpl = parse_template(node["fmt"])
         return {"k": k, "tpl": _enc_tpl(tpl, ix) if tpl is not None else [node["fmt"]]}
+    if k == "mut":
+        return {"k": k, "key": [ix[p] for p in node["key"].split(".")], "val": node["val"]}
     return {"k": k}
 
 
@@ -725,6 +759,11 @@ def compare(case, res, replies):
                 return f"run: model runRef {mo.get('ref')} vs reference run {exp_out}"
             if mo.get("ref") != mo.get("r"):
                 return f"run: model runRef {mo.get('ref')} vs model run {mo.get('r')} (no_leak)"
+        lin = not any(nd["k"] == "src" or (nd["k"] == "split" and nd["c"]) for nd in nodes)
+        if mo.get("linear") != lin:
+            return f"model linear {mo.get('linear')} is wrong"
+        if lin and mo.get("itemwise") != mo.get("r"):
+            return f"run: model value-by-value {mo.get('itemwise')} vs model run {mo.get('r')} (run_values_independent)"
         if mo.get("no_consumer") != (not any(nd["k"] in ("ucfs", "mkf") for nd in nodes)):
             return f"model noConsumer {mo.get('no_consumer')} is wrong"
         if mo.get("no_consumer") and mo.get("plain") != mo.get("r"):
@@ -765,6 +804,8 @@ def rand_leaf(rng, pformat=0.3):
         return {"k": "write", "fmt": "o_" + _tpl(rng) if rng.random() < 0.9 else "outdir"}
     if r < 0.92:
         return {"k": "cache", "fmt": "c_" + _tpl(rng) + ".pkl" if rng.random() < 0.9 else "c.pkl"}
+    if r < 0.96:
+        return {"k": "mut", "key": rng.choice(KEYS), "val": rng.choice(CONSTS)}
     return {"k": "data"}
 
 
@@ -889,7 +930,8 @@ def _renders_dict(tree, flow=None):
 
 
 FLOWS = [[{"r": 0}], [{"r": 0}, {"a": "rt", "r": 1}], [], [{"output": {"filename": "given"}}, {"b": {"y": 7}}],
-         [{"output": {"prefix": "P_", "suffix": "_S", "x": 1}, "c": "rc"}, {"output": {"suffix": ""}, "a": {"x": 5}}]]
+         [{"output": {"prefix": "P_", "suffix": "_S", "x": 1}, "c": "rc"}, {"output": {"suffix": ""}, "a": {"x": 5}}],
+         [{}, {}, {}], [{"r": 0}, {"c": "rc"}, {"r": 2}]]
 
 
 def _flow_for(tree, flow):
@@ -934,7 +976,37 @@ EX_LEAVES = [
 EX_LEAVES_MORE = [
     {"k": "write", "fmt": "o_{{b}}"},
     {"k": "cache", "fmt": "c_{{a}}.pkl"},
+    {"k": "mut", "key": "a.y", "val": 7},
 ]
+
+
+def alias_cases():
+    """Directed family for run-time aliasing of static context: a nested static key, a consumer that keeps what
+    it was given (UpdateContextFromStatic, MakeFilename), a later element that updates the run-time context in
+    place below the same parent (a user mutator, a second UpdateContextFromStatic after another SetContext,
+    MakeFilename writing output.filename), run with three values whose contexts lack the key; in a flat
+    sequence, with the consumer or the mutator in a nested Sequence, and inside a Split branch."""
+    out = []
+    for par, k1, k2 in (("a", "a.x", "a.y"), ("b", "b.y", "b.z"), ("output", "output.x", "output.y")):
+        consumers = [[{"k": "ucfs"}], [{"k": "mkf", "fmt": "{{%s}}_n" % k1}, {"k": "ucfs"}],
+                     [{"k": "store"}, {"k": "ucfs"}, {"k": "mkf", "fmt": "m_{{%s}}" % k1}]]
+        mutators = [[{"k": "mut", "key": k2, "val": 9}], [{"k": "mut", "key": k1, "val": "w"}],
+                    [{"k": "set", "key": k2, "val": 2}, {"k": "ucfs"}],
+                    [{"k": "mkf", "fmt": "f_{{%s}}" % k1}, {"k": "mut", "key": k2, "val": 0}]]
+        for cons in consumers:
+            for mut in mutators:
+                head = [{"k": "set", "key": k1, "val": "far"}]
+                shapes = [head + cons + mut,
+                          head + [{"k": "seq", "kind": "Sequence", "c": cons}] + mut,
+                          head + cons + [{"k": "seq", "kind": "Sequence", "c": mut}],
+                          [{"k": "split", "c": [{"k": "seq", "kind": "Sequence", "c": head + cons + mut},
+                                                {"k": "seq", "kind": "tuple", "c": [{"k": "store"}]}]}]]
+                for cs in shapes:
+                    for kind, flow in (("Sequence", FLOWS[5]), ("Source", [])):
+                        t = {"k": "seq", "kind": kind, "c": ([{"k": "src"}] if kind == "Source" else []) + copy.deepcopy(cs)}
+                        if not _renders_dict(t):
+                            out.append({"tree": t, "flow": _flow_for(t, flow), "variants": []})
+    return out
 
 
 def _forests(n, depth, leaves):
@@ -1016,7 +1088,7 @@ def gen_cases(ctx):
     variants.  thorough: all trees with <= 3 leaves over the 9-leaf alphabet, all trees with 4 leaves over the 4 core
     leaves, 100 000 random trees."""
     rng = ctx.rng
-    cases = []
+    cases = alias_cases()
     if ctx.tier == "quick":
         cases.extend(exhaustive_cases(2, 2, EX_LEAVES + EX_LEAVES_MORE, source=True))
         cases.extend(sampled_cases(rng, 3, 2, EX_LEAVES, 6000))
@@ -1044,6 +1116,8 @@ def classify(case, res):
     kinds = set(n["k"] for n in nodes)
     for k in sorted(kinds):
         labels.append("has:" + k)
+    if case.get("flow") is not None:
+        labels.append("flow:%d values" % len(case["flow"]))
     if any(n["k"] == "set" and isinstance(n["val"], str) and "{" in n["val"] for n in nodes):
         labels.append("has:formatting")
     top = res["nodes"][0].get("get")
